@@ -50,15 +50,30 @@ def extract_patterns(new_fn):
     pats["block_1digit_pattern"] = (first_str_after(t, "let block_1digit_pattern ="), None)
     gf = new_fn.find("fn get_number_pattern_regex")
     gfmt = first_str_after(gf.text, "Regex::new")
-    m = re.search(r"n_sep_before,\s*regex::escape\(block_separator\),\s*n_sep_before,\s*regex::escape\(decimal_separator\),\s*n_sep_after,\s*regex::escape\(block_separator\),\s*n_sep_after", gf.text)
+    # the argument list of the format! call, evaluated generically: each argument is one of the four parameters (escaped or not)
+    m = re.search(r'format!\(\s*r?#*"(?:\\.|[^"\\])*"#*\s*,(.*?)\)\s*\)\s*\.unwrap\(\)', gf.text, re.S)
     if not m:
-        raise slicer.SliceError("argument order of get_number_pattern_regex changed")
+        raise slicer.SliceError("format! call of get_number_pattern_regex not found")
+    arg_texts = [re.sub(r"\s+", "", a) for a in re.split(r",(?![^()]*\))", m.group(1)) if a.strip()]
+    sig = re.search(r"fn get_number_pattern_regex\((\w+): &str, (\w+): &str, (\w+): usize, (\w+): usize\)", gf.text)
+    if not sig:
+        raise slicer.SliceError("signature of get_number_pattern_regex changed")
+    pb, pd, pnb, pna = sig.groups()
+
+    def make_args(b, d, nb, na):
+        env = {pb: b, pd: d, pnb: nb, pna: na, "regex::escape(%s)" % pb: rxsmt.escape_real(b), "regex::escape(%s)" % pd: rxsmt.escape_real(d)}
+        out = []
+        for a in arg_texts:
+            if a not in env:
+                raise slicer.SliceError("get_number_pattern_regex: cannot evaluate format argument %r" % a)
+            out.append(env[a])
+        return out
     for name in ("block_3digit_pattern", "block_3_5digit_pattern"):
         mm = re.search(r"let %s = get_number_pattern_regex\(block_separator_pref, decimal_separator_pref, (\d+), (\d+)\)" % name, t)
         if not mm:
             raise slicer.SliceError("call of get_number_pattern_regex for %s not found" % name)
         nb, na = int(mm.group(1)), int(mm.group(2))
-        pats[name] = (gfmt, lambda b, d, nb=nb, na=na: [nb, rxsmt.escape_real(b), nb, rxsmt.escape_real(d), na, rxsmt.escape_real(b), na])
+        pats[name] = (gfmt, lambda b, d, nb=nb, na=na: make_args(b, d, nb, na))
     return pats
 
 
